@@ -477,6 +477,11 @@ def run_plan(ctx, sysname, mk, solver, segs, full, counters, nsteps):
     t = np.concatenate(t_all); q = np.concatenate(q_all); u = np.concatenate(u_all)
     counters["plans"] += 1
     tol = 1e-7 if solver not in ("ScipyIVP", "ScipyDAE") else 1e-5
+    if getattr(system, "nla_F", 0) > 0 and tol < 1e-6:
+        # frictional contacts: the prox fixed-point iterations stop when consecutive iterates agree to 1e-12, which for slowly contracting
+        # iterations (several sticking contacts) leaves the friction percussions, and with them the velocities, determined only to about 1e-5;
+        # the result then depends on the starting guess of the iteration (warm start of the running solver vs. the restarted one)
+        tol = 1e-6
     n = min(len(t), len(full.t))
     if len(t) != len(full.t) or not np.allclose(t, full.t, atol=1e-12):
         ctx.violation(key + ":time", f"split run has instants {t.tolist()}, uninterrupted {np.asarray(full.t).tolist()}", rep)
@@ -587,7 +592,8 @@ def run(ctx):
                     "mechanism_ops": counters["ops"], "exhaustive": True,
                     "rule": "mechanism: every transition of the bounded graph of (advance, deepcopy, restart) histories; crash points: every split "
                             "step k of an N-step run (all single splits) plus nested splits, per system x solver; non-trivial = contains a restart"}
-    ctx.assumptions = ["split vs uninterrupted trajectories compared at 1e-7 relative with solver tolerances 1e-12 (SciPy wrappers 1e-5)",
+    ctx.assumptions = ["split vs uninterrupted trajectories compared at 1e-7 relative with solver tolerances 1e-12 (SciPy wrappers 1e-5; systems with frictional contacts 1e-6: the "
+                       "prox fixed-point iterations determine the friction percussions only to about 1e-5 and depend on their starting guess)",
                        "a restart that the consistency assertions reject loudly (schemes that do not enforce that level) is repeated with "
                        "compute_consistent_initial_conditions=False and judged on the trajectory"]
 
